@@ -67,8 +67,8 @@ class FirstK(FS):
         return False
 
 
-def _run(U, m, filename, k, unique=True):
-    fs = FirstK(k)
+def _run(U, m, filename, k, unique=True, fs=None):
+    fs = fs or FirstK(k)
     saved = m.os, getattr(m, "re")
     if U.mode == "sym":
         m.os, m.re = OsModel(fs), ReModel()
@@ -140,6 +140,27 @@ def short_names(U, n, k):
     m = U.mod(MISC)
     s = U.str("path", n)
     o, fs = _run(U, m, s, k)
+    _clauses(U, o, fs, s, True)
+
+
+@unit("C38", covers=[(MISC, "clean_file_name")], params=[{"n": n, "extra": e} for n in (1, 2, 3, 4) for e in (0, 2)],
+      samples=300, max_paths=60000, timeout_ms=60000,
+      note="the file system holds one file with an ARBITRARY name (symbolic, n or n+2 characters): whatever it is, the result must "
+           "not name it -- including names that only come into being by the final clean-up of the candidate")
+def any_existing_file(U, n, extra):
+    m = U.mod(MISC)
+    s = U.str("path", n)
+    if U.mode == "sym":
+        f = U.str("file", n + extra)
+    else:
+        # concrete sampling: the interesting existing names are close to the input
+        plain = U.str("file", n + extra)
+        base = s if not extra else s + "_0"
+        cands = [plain, base, base[:-1] + "_", base[:-1] + " ", s[:-1] + "_" + ("_0" if extra else "")]
+        replaying = bool(U.given) and "file" in U.given and "near" not in U.given       # a counter-model names the file itself
+        f = plain if replaying else U.choice("near", cands)
+    fs = FS(files=[f])
+    o, fs = _run(U, m, s, 0, fs=fs)
     _clauses(U, o, fs, s, True)
 
 
